@@ -151,6 +151,8 @@ pub enum FOp {
     Remove(u8, bool, u64),
     AddAll(u8, bool),
     RemoveAll(u8, bool),
+    /// set_tsi_filtering(on)
+    Filtering(bool),
 }
 
 fn probe_packet(tsi: u64, id: u32) -> Vec<u8> {
@@ -165,6 +167,7 @@ pub struct FSys {
     cnt: BTreeMap<(u8, bool, u64), u32>,
     bypass: BTreeMap<(u8, bool), u32>,
     probe_id: u32,
+    filtering: bool,
     viol: Vec<(String, String)>,
     last_vec: Vec<bool>,
     wildcard_hit: bool,
@@ -175,11 +178,14 @@ impl FSys {
     pub fn new() -> FSys {
         let mon = Mon::new(true);
         let rx = MultiReceiver::new(mon.builder(), Some(recv_config(true)), true);
-        let mut s = FSys { rx, mon, cnt: BTreeMap::new(), bypass: BTreeMap::new(), probe_id: 1, viol: vec![], last_vec: vec![], wildcard_hit: false, bypass_hit: false };
+        let mut s = FSys { rx, mon, cnt: BTreeMap::new(), bypass: BTreeMap::new(), probe_id: 1, filtering: true, viol: vec![], last_vec: vec![], wildcard_hit: false, bypass_hit: false };
         s.probe();
         s
     }
     fn expected(&mut self, e: u8, src: bool, tsi: u64) -> bool {
+        if !self.filtering {
+            return true;
+        }
         let by = *self.bypass.get(&(e, src)).unwrap_or(&0) > 0;
         let exact = *self.cnt.get(&(e, src, tsi)).unwrap_or(&0) > 0;
         let wild = *self.cnt.get(&(e, false, tsi)).unwrap_or(&0) > 0;
@@ -243,6 +249,7 @@ impl Sys for FSys {
                 v.push(FOp::RemoveAll(e, src));
             }
         }
+        v.push(FOp::Filtering(!self.filtering));
         v
     }
     fn apply(&mut self, op: &FOp) {
@@ -261,6 +268,10 @@ impl Sys for FSys {
                 self.rx.add_listen_all_tsi(ep(*e, *s));
                 *self.bypass.entry((*e, *s)).or_insert(0) += 1;
             }
+            FOp::Filtering(on) => {
+                self.rx.set_tsi_filtering(*on);
+                self.filtering = *on;
+            }
             FOp::RemoveAll(e, s) => {
                 self.rx.remove_listen_all_tsi(&ep(*e, *s));
                 if let Some(c) = self.bypass.get_mut(&(*e, *s)) {
@@ -273,7 +284,7 @@ impl Sys for FSys {
         self.probe();
     }
     fn fingerprint(&self) -> u64 {
-        h64(&(&self.cnt, &self.bypass, &self.last_vec, self.viol.len()))
+        h64(&(&self.cnt, &self.bypass, &self.last_vec, self.viol.len(), self.filtering))
     }
     fn verdicts(&self) -> Vec<(String, String)> {
         self.viol.clone()
@@ -509,7 +520,7 @@ pub fn run(thorough: bool) -> i32 {
     rep.cov("traces_validated_against_impl", st.transitions + n_iso + lruns);
     rep.cov("evaluations", st.transitions + n_iso + lruns);
     rep.cov("distinct_nontrivial", st.states + d_iso);
-    rep.cov("explanation", "isolation: every interleaving of 2-3 recorded sessions pushed into one real MultiReceiver and compared per (endpoint, TSI) with the session run alone; filter: BFS over the 24 listen operations on the real MultiReceiver, 8 probes after every operation compared with a counter reference; listener: every history over {data s, close s, tick+cleanup} with a 6 s clock jump injected before every single Instant read (and every pair, thorough), event word per session checked");
+    rep.cov("explanation", "isolation: every interleaving of 2-3 recorded sessions pushed into one real MultiReceiver and compared per (endpoint, TSI) with the session run alone; filter: BFS over the 24 listen operations and set_tsi_filtering on the real MultiReceiver, 8 probes after every operation compared with a counter reference; listener: every history over {data s, close s, tick+cleanup} with a 6 s clock jump injected before every single Instant read (and every pair, thorough), event word per session checked");
     rep.cov("exhaustive", !st.capped);
     rep.cov("isolation_interleavings", n_iso);
     rep.cov("filter_states", st.states);
